@@ -44,6 +44,7 @@ int nondet_int(void);
 /* a pointer whose dereference is an error: one byte that has been freed (CBMC: deallocated object;
  * native replay: address of an inaccessible page) */
 void *verif_poison_ptr(void);
+void *verif_poison_obj(size_t n);      /* like verif_poison_ptr but of a given size */
 void *verif_obj(size_t n);            /* fresh object of n bytes with arbitrary content */
 
 #endif
